@@ -82,7 +82,7 @@ func init() {
 			return []string{"router: one pass of processChunks over a queue of two datagrams with symbolic arrival instants (gaps 0..150), symbolic minimum delay 0..100, symbolic wait 0..150 before the pass, symbolic destinations (two attached NICs, unregistered, unroutable)",
 				"delay filter (time-budgeted, reported as not covered when the budget is exceeded): Run goroutine + one producer handing in one datagram, a clock goroutine advancing time once, delay 0..50, all interleavings"}
 		},
-		Assume: []string{"time.Now is the model clock; time.NewTimer/Stop/Reset/C follow the legacy channel-timer semantics", "maxJitter is 0 (the jitter sleep is a stub)", "context.Context is a harness model whose Done channel is never closed"},
+		Assume:  []string{"time.Now is the model clock; time.NewTimer/Stop/Reset/C follow the legacy channel-timer semantics", "maxJitter is 0 (the jitter sleep is a stub)", "context.Context is a harness model whose Done channel is never closed"},
 		Outside: []string{"jitter", "queues of more than two datagrams in one pass", "the delay filter beyond the budgeted instance (in particular: the known nil type assertion in DelayFilter.Run when the timer case empties the queue before the push notification is consumed is not decided by the quick tier)"}})
 	register(&Prop{ID: "C01", Pkgs: vnetPkgs, InitPkgs: []string{"vnet"}, InstrDirs: []string{"vnet"},
 		Runs: func(tier string) []gosym.RunConfig {
@@ -103,7 +103,7 @@ func init() {
 			return []string{"per-hop obligations on the real code, each for symbolic payloads of 0..1500 bytes and symbolic addresses: (a) UDPConn.WriteTo -> chunk handed to the network (private copy, source, destination), (b) chunkQueue FIFO over 4 (6) operations, (c) one Router.processChunks pass over two queued datagrams with symbolic destinations (attached NIC A/B, unregistered, no route), (d) NAT translation keeps the payload, (e) socket inbound hand-over and ReadFrom (payload, source, short buffer, connected-socket filtering)",
 				"the composition of the hops to whole topologies (any nesting depth) is an argument in DESIGN.md, not a solver result"}
 		},
-		Assume: []string{"strings are values of the Str datatype (IP.String injective)", "time.Now is the model clock", "sequential use of each hop (the router mutex serialises processChunks and push)"},
+		Assume:  []string{"strings are values of the Str datatype (IP.String injective)", "time.Now is the model clock", "sequential use of each hop (the router mutex serialises processChunks and push)"},
 		Outside: []string{"end-to-end runs over whole topologies with concurrent router goroutines", "Net.onInboundChunk / udpConnMap demultiplexing is decided under C13", "queues at capacity, loss filters"}})
 	register(&Prop{ID: "C10", Pkgs: []HarnessPkg{{Dir: "vnet", Name: "vnet"}, {Dir: "packetio", Name: "packetio"}}, InitPkgs: []string{"deadline", "packetio", "vnet"}, InstrDirs: []string{"vnet", "packetio", "deadline"},
 		Runs: func(tier string) []gosym.RunConfig {
